@@ -17,7 +17,7 @@ type Case struct {
 	GenFeat map[string]int `json:"genfeat,omitempty"`
 }
 
-var profile = prog.Profile{Errors: true, MaxDepth: 4, MaxStmts: 4}
+var profile = prog.Profile{Errors: true, HostChan: true, MaxDepth: 4, MaxStmts: 4}
 
 func gen(t *rapid.T) Case {
 	p, f := prog.Generate(t, profile)
@@ -36,22 +36,29 @@ func oracle(c Case, o *h.Obs) *h.Fail {
 		o.Class("generator_kept_signals_out_of_a_try_body")
 	}
 	o.NonTrivial = f["abrupt_exit_with_2plus_defers"] > 0 || f["deferred_error_surfaces"] > 0 || f["deferred_error_after_body_error"] > 0 || f["try_in_deferred_callee"] > 0 ||
-		(f["error_caught"] > 0 && f["defer_run"] > 0)
+		(f["error_caught"] > 0 && f["defer_run"] > 0) || f["error_through_go_callback"] > 0
 	for k, n := range f {
 		if n > 0 && strings.HasPrefix(k, "invocation_exit_") {
 			o.Class(k)
 		}
 	}
-	for _, k := range []string{"error_caught", "catch_exits_abruptly", "finally_run", "throw", "deferred_error_surfaces", "deferred_error_after_body_error", "try_in_deferred_callee", "abrupt_exit_with_2plus_defers", "coalesce_swallowed_error", "index_out_of_range", "undefined_name"} {
+	for _, k := range []string{"error_caught", "catch_exits_abruptly", "finally_run", "throw", "deferred_error_surfaces", "deferred_error_after_body_error", "try_in_deferred_callee", "abrupt_exit_with_2plus_defers", "coalesce_swallowed_error", "index_out_of_range", "undefined_name", "script_callback_called_by_go", "error_through_go_callback"} {
 		if f[k] > 0 {
 			o.Class(k)
+		}
+	}
+	for _, k := range []string{"spread_operand_raises", "call_spread_variadic", "script_callback_passed_to_go"} {
+		if c.GenFeat[k] > 0 {
+			o.Class("gen_" + k)
 		}
 	}
 	if v.Out.Err != nil {
 		o.Class("program_ends_with_uncaught_error")
 	}
 	if !v.OK {
-		return h.Failf("C09|"+v.Clause, "program:\n%s\n%s", v.Src, v.Detail)
+		f := h.Failf("C09|"+v.Clause, "program:\n%s\n%s", v.Src, v.Detail)
+		f.NoShrink = v.Clause == "no-termination"
+		return f
 	}
 	if v.Cfg.FinallyAfterAbrupt || v.Cfg.TrySeparate {
 		o.Class("matched_alternative_parameterisation")
